@@ -39,6 +39,9 @@ type Output struct {
 	Summary  map[string]int `json:"summary"`
 	Unsafe   []int          `json:"unsafe_client_sites"` // mirror of Coq's site_safe, for targeting only
 	Warnings []string       `json:"warnings"`
+	// functions that read the details of a session parameter without locking
+	// (function#parameter index; their call sites carry the obligation)
+	DetailsDelegated []string `json:"details_delegated"`
 }
 
 func main() {
@@ -112,6 +115,7 @@ func main() {
 		}
 	}
 	out.Policy = policyInfo(w)
+	out.DetailsDelegated = w.delegated
 	for _, s := range sites {
 		if relevant(s) && !mirrorSafe(s) {
 			out.Unsafe = append(out.Unsafe, s.ID)
@@ -151,7 +155,7 @@ func relevant(s *Site) bool {
 		return false
 	}
 	switch s.Class {
-	case "peerclose", "panic", "msgsend":
+	case "peerclose", "panic", "msgsend", "detailsuse":
 		return true
 	}
 	return s.Origin != "internal"
@@ -315,6 +319,8 @@ func mirrorSafe(s *Site) bool {
 		return s.Guarded
 	case "callpanic":
 		return false
+	case "detailsuse":
+		return s.Guard == "locked" || s.Guard == "after-removal" || s.Guard == "fresh"
 	}
 	return false
 }
